@@ -444,10 +444,14 @@ def check_const(tn, inp):
 
 def check_delta(tn, inp):
     ns, i, v = inp['ns'], inp['i'], float.fromhex(inp['v'])
+    ns0, i0 = list(ns), list(i)
     try:
-        A = _full(tn.delta(ns, i, v))
+        A = _full(tn.delta(ns0, i0, v))
     except Exception as e:  # noqa
         return dict(what='delta raised on a valid position: ' + repr(e)[:150])
+    if ns0 != list(ns) or i0 != list(i):
+        return dict(what='delta modified its shape / position argument (a reused index object would address another entry)',
+                    got=[ns0, i0], expected=[list(ns), list(i)])
     E = np.zeros(ns)
     E[tuple(x % n for x, n in zip(i, ns))] = v
     if A.shape != E.shape or not np.allclose(A, E, rtol=1e-10, atol=0) or np.count_nonzero(A) != np.count_nonzero(E):
@@ -672,6 +676,30 @@ def check_forms(tn, kind, inp):
         base = cores(call(lambda x: [list(r) if isinstance(r, (list, tuple)) else r for r in x] if isinstance(x, list) else x))
     except Exception:
         return None            # the canonical call is judged by the main oracle
+    # history: the very same argument objects (lists, then int64 arrays) passed twice - they must come back unchanged and the
+    # second call must build the same tensor (a constructor that normalises a negative position in place corrupts a reused index)
+    import copy as _copy
+    for name, mk in (('list', lambda x: _copy.deepcopy(x)), ('int64 ndarray', lambda x: np.array(x, dtype=np.int64))):
+        store, snap = {}, {}
+
+        def keep(x, _mk=mk, _store=store, _snap=snap):
+            key = repr(x)
+            if key not in _store:
+                _store[key] = _mk(x)
+                _snap[key] = _copy.deepcopy(_store[key])
+            return _store[key]
+        try:
+            first = cores(call(keep))
+            second = cores(call(keep))
+        except Exception:
+            continue
+        for k in store:
+            a, b = snap[k], store[k]
+            if not (np.array_equal(np.asarray(a, dtype=object), np.asarray(b, dtype=object)) if not isinstance(a, np.ndarray)
+                    else (a.shape == b.shape and np.array_equal(a, b))):
+                return dict(what=f'{kind}: an argument given as {name} was modified by the call', got=repr(b)[:200], expected=repr(a)[:200])
+        if not same(first, base) or not same(second, base):
+            return dict(what=f'{kind}: calling twice with the same argument objects ({name}) builds a different tensor')
     forms = [('tuple', lambda x: tuple(tuple(r) if isinstance(r, (list, tuple)) else r for r in x)),
              ('int64 ndarray', lambda x: np.array(x, dtype=np.int64)), ('int32 ndarray', lambda x: np.array(x, dtype=np.int32))]
     for name, f in forms:
@@ -697,8 +725,14 @@ def check_forms(tn, kind, inp):
 
 
 def _run(tn, kind, inp):
+    import copy as _copy
+    inp0 = _copy.deepcopy(inp)
     try:
         f = CHECKS[kind](tn, inp)
+        if f is None and inp != inp0:
+            f = dict(what=f'{kind}: the constructor modified one of its (list) arguments in place', got=repr(inp)[:300],
+                     expected=repr(inp0)[:300])
+            inp = inp0
         if f is None and kind in ('const', 'delta', 'poly'):
             f = check_forms(tn, kind, inp)
     except Exception as e:  # noqa
